@@ -227,18 +227,35 @@ def run(chk):
     gem = method(chk, dm, "_get_error_metrics")
     try:
         c = Converter()
-        c.env["resid"] = sym("resid")
-        c.env["obs"] = sym("obs")
+        # the stacked arrays: <A> = np.hstack(<L>) where the list <L> collects <component>.resid / .obs inside the loop over the components
+        stacked = {}
+        loops = [x for x in ast.walk(gem.node) if isinstance(x, ast.For)]
+        for s in gem.node.body:
+            if isinstance(s, ast.Assign) and isinstance(s.targets[0], ast.Name) and isinstance(s.value, ast.Call) and unparse(s.value.func) in ("np.hstack", "np.concatenate") and len(s.value.args) == 1 \
+                    and isinstance(s.value.args[0], ast.Name):
+                L = s.value.args[0].id
+                apps = [x for lp in loops for x in ast.walk(lp) if isinstance(x, ast.Call) and isinstance(x.func, ast.Attribute) and x.func.attr == "append" and unparse(x.func.value) == L and len(x.args) == 1]
+                inits = [x for x in gem.node.body if isinstance(x, ast.Assign) and unparse(x.targets[0]) == L and unparse(x.value) in ("[]", "list()")]
+                kinds = {a.args[0].attr for a in apps if isinstance(a.args[0], ast.Attribute)}
+                if len(apps) == 1 and len(inits) == 1 and len(kinds) == 1 and inits[0].lineno < loops[0].lineno < s.lineno:
+                    stacked[kinds.pop()] = s.targets[0].id
+        r1.require(set(stacked) == {"resid", "obs"}, f"{gem.key}|stacked-components", gem.where(),
+                   f"RMSE/MAE must be computed over the stacked residuals/observations of all components of the split (np.hstack of the per-component .resid / .obs lists); found {stacked}")
+        c.env[stacked.get("resid", "resid")] = sym("resid")
+        c.env[stacked.get("obs", "obs")] = sym("obs")
         tail = [s for s in gem.node.body if isinstance(s, (ast.Assign, ast.Return)) and s.lineno > max(x.lineno for x in ast.walk(gem.node) if isinstance(x, ast.For))]
-        # keep only the scalar assignments after the loop (resid/obs = np.hstack(...) are the atoms)
-        body = [s for s in tail if not (isinstance(s, ast.Assign) and isinstance(s.value, ast.Call) and unparse(s.value.func) == "np.hstack")]
+        # keep only the scalar assignments after the loop (the stacked arrays are the atoms)
+        body = [s for s in tail if not (isinstance(s, ast.Assign) and isinstance(s.value, ast.Call) and unparse(s.value.func) in ("np.hstack", "np.concatenate"))]
+        # the weighted accumulators keep their reference names whatever the locals are called: <acc> += <component>.wSSE / .N
+        for lp in loops:
+            for x in ast.walk(lp):
+                if isinstance(x, ast.AugAssign) and isinstance(x.op, ast.Add) and isinstance(x.target, ast.Name) and isinstance(x.value, ast.Attribute) and x.value.attr in ("wSSE", "N"):
+                    c.env[x.target.id] = sym(x.value.attr)
         ret = c.run_body(body)
         for pos, ref in spec["DAILY_ERROR"].items():
             want = parse_ref(ref)
             r1.require(isinstance(ret, list) and len(ret) == 5 and equal(ret[pos], want), f"{gem.key}|position:{pos}", gem.where(),
                        f"_get_error_metrics()[{pos}] = {ret[pos] if isinstance(ret, list) and len(ret) > pos else ret}, reference is {want}", sample={"statistic": f"daily error[{pos}]", "term": str(ret[pos]) if isinstance(ret, list) else None})
-        hs = [unparse(s.value) for s in gem.node.body if isinstance(s, ast.Assign) and isinstance(s.value, ast.Call) and unparse(s.value.func) == "np.hstack"]
-        r1.require(sorted(hs) == ["np.hstack(obs)", "np.hstack(resid)"], f"{gem.key}|stacked-components", gem.where(), "RMSE/MAE must be computed over the stacked residuals/observations of all components of the split")
     except Unsupported as e:
         r1.require(False, f"{gem.key}|formulas", gem.where(), f"cannot establish the daily error metrics: {e}")
     # the error dict stores them under the right names
@@ -359,32 +376,67 @@ def check_poor_fit_gates(chk, r3):
     r3.require(not bad, f"{acc.key}|truth-table", acc.where(),
                f"_model_fit_is_acceptable must be true iff (cvrmse_adj is not None and < cvrmse_threshold) or (pnrmse_adj is not None and < pnrmse_threshold); deviations: {bad[:3]}",
                sample={"atoms": atoms, "rows": 16})
+    from engine.pattern import Expander
     hfit = method(chk, hm, "fit")
     hcfg = CFG(hfit.node)
-    ap = [s for s in hcfg.stmts() if isinstance(s, ast.Expr) and isinstance(s.value, ast.Call) and unparse(s.value.func) == "self.disqualification.append"]
+    hex_ = Expander(hfit.node)
+
+    def appends_of(cfg_):
+        return [s for s in cfg_.stmts() if isinstance(s, ast.Expr) and isinstance(s.value, ast.Call) and isinstance(s.value.func, ast.Attribute)
+                and s.value.func.attr in ("append", "extend") and unparse(s.value.func.value) == "self.disqualification"]
+
+    def guard_table(cfg_, ex_, stmt, atomizer, atoms):
+        """Truth table of the path condition of `stmt` (enclosing ifs and earlier guard clauses), locals expanded; guards that do
+        not mention an atom are ignored (they belong to other decisions, e.g. the data-sufficiency gate)."""
+        gs = []
+        facts = cfg_.must_facts().get(id(stmt), frozenset())
+        for f_ in facts:
+            st = cfg_.stmt_of.get(f_.test_id)
+            if st is None or isinstance(st, (ast.For, ast.AsyncFor)):
+                continue
+            t = ex_.expand(cfg_.tests[f_.test_id], st)
+            try:
+                boolalg.truth_table(t, atomizer, atoms)
+            except boolalg.Unrecognised:
+                continue
+            gs.append((t, f_.polarity))
+        if not gs:
+            return None
+        return boolalg.conj_table(gs, atomizer, atoms)
+
+    def acc_atomizer(e):
+        s_, neg = boolalg.strip_truthiness(e)
+        if isinstance(s_, ast.Call) and unparse(s_.func) == "self._model_fit_is_acceptable" and not s_.args and not s_.keywords:
+            return ("acc", neg)
+        return None
+    ap = appends_of(hcfg)
     ok = False
     if ap:
-        g = hcfg.guards(ap[0])
-        gate = [(t, pol) for t, pol in g if "_model_fit_is_acceptable" in unparse(t)]
-        ok = len(gate) == 1 and ((unparse(gate[0][0]) == "not self._model_fit_is_acceptable()" and gate[0][1]) or (unparse(gate[0][0]) == "self._model_fit_is_acceptable()" and not gate[0][1]))
+        tt = guard_table(hcfg, hex_, ap[0], acc_atomizer, ["acc"])
+        ok = tt is not None and tt[(False,)] is True and tt[(True,)] is False
     r3.require(ok, f"{hfit.key}|disqualify-iff-not-acceptable", hfit.where(), "HourlyModel.fit must append the poor-fit disqualification exactly when _model_fit_is_acceptable() is falsy")
     dfit = method(chk, dm, "fit")
     dcfg = CFG(dfit.node)
-    ap = [s for s in dcfg.stmts() if isinstance(s, ast.Expr) and isinstance(s.value, ast.Call) and unparse(s.value.func) == "self.disqualification.append"]
+    dex = Expander(dfit.node)
+
+    def cv_atomizer(e):
+        s_, neg = boolalg.strip_truthiness(e)
+        if isinstance(s_, ast.Compare) and len(s_.ops) == 1:
+            l, r, op = unparse(s_.left), unparse(s_.comparators[0]), type(s_.ops[0])
+            CV, TH = ("self.error['CVRMSE']", "self.error.get('CVRMSE')"), ("self.settings.cvrmse_threshold",)
+            if l in CV and r in TH and op in (ast.Gt, ast.LtE):
+                return ("gt", neg != (op is ast.LtE))
+            if r in CV and l in TH and op in (ast.Lt, ast.GtE):
+                return ("gt", neg != (op is ast.GtE))
+        return None
+    ap = appends_of(dcfg)
     ok = False
     found = None
     if ap:
-        g = [(t, pol) for t, pol in dcfg.guards(ap[0]) if "CVRMSE" in unparse(t) or "cvrmse" in unparse(t)]
-        if len(g) == 1:
-            t, pol = g[0]
-            found = (unparse(t), pol)
-            if isinstance(t, ast.Compare) and len(t.ops) == 1:
-                l, r, op = unparse(t.left), unparse(t.comparators[0]), type(t.ops[0])
-                if pol:
-                    ok = (l == "self.error['CVRMSE']" and r == "self.settings.cvrmse_threshold" and op is ast.Gt) or (r == "self.error['CVRMSE']" and l == "self.settings.cvrmse_threshold" and op is ast.Lt)
-                else:
-                    ok = (l == "self.error['CVRMSE']" and r == "self.settings.cvrmse_threshold" and op is ast.LtE) or (r == "self.error['CVRMSE']" and l == "self.settings.cvrmse_threshold" and op is ast.GtE)
-    r3.require(ok, f"{dfit.key}|disqualify-iff-cvrmse>threshold", dfit.where(), f"DailyModel.fit must disqualify exactly when error['CVRMSE'] > settings.cvrmse_threshold; found {found}")
+        tt = guard_table(dcfg, dex, ap[0], cv_atomizer, ["gt"])
+        found = tt
+        ok = tt is not None and tt[(True,)] is True and tt[(False,)] is False
+    r3.require(ok, f"{dfit.key}|disqualify-iff-cvrmse>threshold", dfit.where(), f"DailyModel.fit must disqualify exactly when error['CVRMSE'] > settings.cvrmse_threshold; found path condition {found}")
     r3.inst(f"{dfit.key}|billing-inherits")
 
 
